@@ -109,10 +109,15 @@ DiffTable(in, t, ch) ==
            k \in {x \in DOMAIN t.rows : t.rows[x].name \notin RowDirs(in)}} \cup
         UNION {rowItems(k) : k \in DOMAIN t.rows}
 
+HasSeparator(d) == \E i \in 1..Len(d) : SubSeq(d, i, i) \in {",", "\""}
+
 DiffByDir(in, o) ==
   IF ~o.ran THEN {Item("bydir-not-run", "", {})}
   ELSE IF o.exit # 0 THEN {Item("bydir-exit", ToString(o.exit), {})}
-  ELSE DiffTable(in, o.stdout, "stdout") \cup DiffTable(in, o.csv, "csv")
+  \* Free_ConsoleNameWithSeparator: the console listing joins the cells of a row with commas and is no CSV file; when a
+  \* sub-directory name itself contains a comma or a double quote its console row cannot be read back, and the statement
+  \* does not say how the console shows such a name. The report file (cloc.csv) is judged all the same.
+  ELSE (IF \E d \in Range(in.dirs) : HasSeparator(d) THEN {} ELSE DiffTable(in, o.stdout, "stdout")) \cup DiffTable(in, o.csv, "csv")
 
 -----------------------------------------------------------------------------
 (* top-file report *)
